@@ -50,18 +50,18 @@ def expanded_source(repo, workdir):
     return dst
 
 
-def run_unit(unit, repo="/repo", workdir=None, canary=False, extra_text=None, keep=False):
+def run_unit(unit, repo="/repo", workdir=None, canary=False, variant=None, keep=False):
     t0 = time.time()
     tmpl = os.path.join(ROOT, "specs", unit + ".vrs")
     workdir = workdir or os.path.join(ROOT, "build")
     os.makedirs(workdir, exist_ok=True)
-    out_rs = os.path.join(workdir, unit.replace("-", "_") + ".rs")
-    res = dict(unit=unit, status="inconclusive", functions={}, failures=[], items=[], reason="", wall_s=0.0,
+    out_rs = os.path.join(workdir, unit.replace("-", "_") + ("__" + variant.replace("-", "_") if variant else "") + ".rs")
+    res = dict(unit=unit, variant=variant, status="inconclusive", functions={}, failures=[], items=[], reason="", wall_s=0.0,
                verified=0, errors=0, smt_ms=0)
     needs_expanded = "EXPANDED" in open(tmpl).read()
     try:
         exp = expanded_source(repo, workdir) if needs_expanded else None
-        res["items"] = extract.build(tmpl, repo, out_rs, exp)
+        res["items"] = extract.build(tmpl, repo, out_rs, exp, variant)
     except extract.LostAnchor as e:
         res["reason"] = "lost-anchor: " + str(e)
         res["wall_s"] = time.time() - t0
@@ -120,6 +120,29 @@ def run_unit(unit, repo="/repo", workdir=None, canary=False, extra_text=None, ke
                 return it
         return None
 
+    try:
+        gen_lines = open(out_rs).read().split("\n")
+    except Exception:
+        gen_lines = []
+
+    def tags_at(line, it):
+        """property tags of the contract clause at generated-file line `line` (1-based) inside item `it`."""
+        if not gen_lines or line is None or line < 1 or line > len(gen_lines):
+            return list(it.get("default_tags", [])) if it else []
+        t = re.findall(r"@C\d+", gen_lines[line - 1])
+        if t:
+            return t
+        lo = it["out_line_start"] if it else max(1, line - 80)
+        k = line - 1
+        while k >= lo:
+            ln = gen_lines[k - 1].strip()
+            if ln.startswith("//"):
+                t = re.findall(r"@C\d+", ln)
+                if t:
+                    return t
+            k -= 1
+        return list(it.get("default_tags", [])) if it else []
+
     hard_errors = []
     for d in diags:
         msg = d.get("message", "")
@@ -145,8 +168,18 @@ def run_unit(unit, repo="/repo", workdir=None, canary=False, extra_text=None, ke
         if prim and prim.get("text"):
             tx = prim["text"][0]
             clause = tx["text"][tx["highlight_start"] - 1: tx["highlight_end"] - 1] if len(prim["text"]) == 1 else " ".join(x["text"].strip() for x in prim["text"])
+        # property attribution: the failed contract clause's tags (for a precondition: the callee's requires clause)
+        tag_span = prim
+        for sp in spans:
+            if "failed precondition" in (sp.get("label") or "") or "failed this postcondition" in (sp.get("label") or ""):
+                tag_span = sp
+        tag_item = item_of(tag_span["line_start"]) if tag_span else None
+        if "postcondition" in msg or "precondition" in msg:
+            tags = tags_at(tag_span["line_start"], tag_item) if tag_span else []
+        else:
+            tags = list(fn_item.get("default_tags", [])) if fn_item else []
         res["failures"].append(dict(
-            message=msg, limit=limit, clause=clause.strip(),
+            message=msg, limit=limit, clause=clause.strip(), tags=sorted(set(tags)),
             item=(fn_item["container"] + " :: " + fn_item["name"]) if fn_item else None,
             item_file=fn_item["file"] if fn_item else None,
             item_src_line=fn_item["src_line"] if fn_item else None,
@@ -179,15 +212,16 @@ def main():
     ap.add_argument("--repo", default="/repo")
     ap.add_argument("--workdir")
     ap.add_argument("--canary", action="store_true")
+    ap.add_argument("--variant")
     ap.add_argument("--json", action="store_true")
     a = ap.parse_args()
-    r = run_unit(a.unit, a.repo, a.workdir, a.canary)
+    r = run_unit(a.unit, a.repo, a.workdir, a.canary, a.variant)
     if a.json:
         print(json.dumps(r, indent=1))
     else:
         print(f"unit {r['unit']}: {r['status']}  verified={r['verified']} errors={r['errors']} wall={r['wall_s']}s  {r['reason']}")
         for f in r["failures"]:
-            print("-----", f["message"], "| item:", f["item"], "| clause:", f["clause"])
+            print("-----", f["message"], "| item:", f["item"], "| tags:", ",".join(f["tags"]), "| clause:", f["clause"])
             print(f["rendered"])
         for h in r.get("hard_errors", [])[:6]:
             print("HARD:", h)
